@@ -45,7 +45,7 @@ demo_run; rc1=$?
 say "demo with patch: exit $rc1 (want non-zero)"; tail -5 "$W/demo.out" >> "$LOG"
 pkgs=$(cd "$W/repo" && git diff --name-only | xargs -n1 dirname | sort -u | sed 's#^#./#; s#$#/...#' | tr '\n' ' ')
 if [ "$FULL" = "full" ]; then pkgs="./..."; fi
-( cd "$W/repo" && go test -count=1 -timeout 25m $pkgs 2>&1 | grep -v "^ok\|no test files" | head -40 ) > "$W/suite.out" 2>&1
+( cd "$W/repo" && go test -count=1 -timeout 25m $pkgs 2>&1 | grep -E "^(FAIL|--- FAIL|panic|ok )" | grep -v "^ok " | head -60 ) > "$W/suite.out" 2>&1
 nfail=$(grep -c "^FAIL\|^--- FAIL" "$W/suite.out")
 # the three pkcs7 tests fail on the unchanged tree in this sandbox too
 other=$(grep "^--- FAIL" "$W/suite.out" | grep -v "TestSign \|TestSignWithDigest\|TestSignWithOpenSSLAndVerify" | wc -l)
